@@ -56,6 +56,7 @@ def cases(draw, tier="quick"):
     P["kills"] = draw(st.sampled_from([0, 1, 1, 2, 3, 5]))
     P["w_kill"] = draw(st.sampled_from([1, 2, 4]))
     P["bufsize"] = draw(st.sampled_from([1 << 16, 1 << 16, 200, 5000]))
+    P["max_reconnects"] = 6
     P["dilate_at"] = [draw(st.sampled_from(["start", "tape"])), draw(st.sampled_from(["start", "tape"]))]
     n = draw(st.integers(30, 400))
     P["tape"] = draw(st.binary(min_size=n, max_size=n))
@@ -143,7 +144,11 @@ def run_case(P):
                     case._do_intent(["listen", side, name])
         case.settles.append(case.settle(after_step=after))
         st_all = list(case.settles)
-        if not bad:
+        if not bad and any(s == "reconnect-loop" for s in st_all):
+            res.violate("complete", "with no fault injected the connection in use was replaced more than 6 times during "
+                        "stabilisation (the code keeps dropping it): %r; logged %r" % (st_all[-3:], case.W.error_summaries()[:2]),
+                        input_class="reconnect-loop-without-faults")
+        elif not bad:
             if all(s == "quiescent" or s == "time" for s in st_all) and all(case.dilated):
                 ms = case.managers()
                 if not all(m is not None and m._connection for m in ms):
